@@ -245,17 +245,24 @@ func addModuleSentinel(ctx context.Context, rootPath string) (err error) {
 		return err
 	}
 	var sentinelLocation string
+	dir := ModuleDir
 	if isImportModule(ctx) {
 		sentinelLocation, err = createModulePath(ctx, rootPath)
 		if err != nil {
 			return err
 		}
 	} else {
-		rootPath = strings.TrimPrefix(rootPath, fromBundleConfig(ctx).absRootPath)
-		sentinelLocation = path.Join(fromBundleConfig(ctx).mainRoot, rootPath)
+		config := fromBundleConfig(ctx)
+		if config.mainRoot == "" {
+			// The main script has no module: its files live under /unnamed (see bundleLocalFile),
+			// and the sentinel of a module nested below it must sit beside them.
+			dir = NoModuleDir
+		}
+		rootPath = ctxfs.ToUnixPath(strings.TrimPrefix(rootPath, config.absRootPath))
+		sentinelLocation = path.Join(config.mainRoot, rootPath)
 	}
 
-	pathInBundle := path.Join(ModuleDir, sentinelLocation)
+	pathInBundle := path.Join(dir, sentinelLocation)
 	if exists, err := ctxfs.FileExists(ctx, bundleFsKey, pathInBundle); err != nil {
 		return err
 	} else if exists {
